@@ -119,6 +119,7 @@ func faultFidelityPass(tier string, seed uint64, cov map[string]any) (int, []str
 		}
 		return r, nil
 	}
+	var w0 *simos.World // initial world of the scenario at hand
 	simOps := func(w *simos.World) []string {
 		var out []string
 		for _, o := range w.Ops {
@@ -127,7 +128,7 @@ func faultFidelityPass(tier string, seed uint64, cov map[string]any) (int, []str
 				if o.Kind == "write-stdout" {
 					p = "<stdout>"
 				}
-				if nd := w.Get(p); (o.Kind == "close" || o.Kind == "write") && nd != nil && nd.Mode&os.ModeSymlink != 0 {
+				if nd := w0.Get(p); (o.Kind == "close" || o.Kind == "write") && nd != nil && nd.Mode&os.ModeSymlink != 0 {
 					p = nd.Target // ptstep names a descriptor by the file it refers to, i.e. with the link followed
 				}
 				n := o.N
@@ -149,7 +150,7 @@ func faultFidelityPass(tier string, seed uint64, cov map[string]any) (int, []str
 		}
 		j := newC10Judge(c)
 		args := j.v.Args()
-		w0 := buildWorld(c)
+		w0 = buildWorld(c)
 		diag := func(what string, sw *simos.World, sres RunResult, rr *realRes) (int, []string) {
 			lines := []string{
 				fmt.Sprintf("INFRA: simulator fidelity under faults: %s (scenario %d, gxz %q)", what, i, args),
